@@ -30,16 +30,34 @@ type env struct {
 // worker runs one case at a time): sessions of plain-9P2000 clients against a .u-capable server.
 var serverOffersDotu bool
 
+// serverMsize > 0: the server of the running case has that msize, whatever its clients ask for (negotiation lowers
+// the clients' proposal).
+var serverMsize uint32
+
+// rootSpelling: "" or how the server's Root is configured although it designates the same directory ("trailing-slash",
+// "dot-element").
+var rootSpelling string
+
 func newEnv(ctx *core.Ctx, name string, srvDotu bool, srvMsize uint32) (*env, error) {
 	if serverOffersDotu {
 		srvDotu = true
+	}
+	if serverMsize > 0 {
+		srvMsize = serverMsize
 	}
 	root := filepath.Join(ctx.Scratch, fmt.Sprintf("%s-%d", name, ctx.Index))
 	_ = os.RemoveAll(root)
 	if err := os.MkdirAll(root, 0o755); err != nil {
 		return nil, err
 	}
-	return &env{root: root, dotu: srvDotu, s: srvlab.NewUfsSess(root, srvDotu, srvMsize)}, nil
+	exported := root
+	switch rootSpelling {
+	case "trailing-slash":
+		exported = root + "/"
+	case "dot-element":
+		exported = filepath.Dir(root) + "/./" + filepath.Base(root)
+	}
+	return &env{root: root, dotu: srvDotu, s: srvlab.NewUfsSess(exported, srvDotu, srvMsize)}, nil
 }
 
 func (e *env) cleanup() {
